@@ -41,6 +41,24 @@ CLAIMED = {
         "technique": "Coq proof (selection invariants of the two merge loops, monotone binary64 ratio) + differential "
                      "correspondence + exact-rational recount oracle on every k/n threshold boundary",
     },
+    "C03": {
+        "text": "Machine-checked proofs about the validated pipeline model (all closed under the global context): "
+                "switching all_instances_are_compliant_mode off never changes a cardinality and never yields ?/* "
+                "(C03_mode_off_keeps_cards, C03_mode_on_off); with keep_less_specific a '?' constraint comes from a "
+                "{1} candidate that tied with its '+' sibling, so no instance has two matching values "
+                "(C03_relaxed_card_sound, C03_opt_at_most_one); every output cardinality holds on every instance "
+                "(C03_cardinalities, exact and binary64); and on the property's strict domain the instance typing is a "
+                "valid typing of the extracted schema under the ShEx semantics of Spec/ShexSem.v "
+                "(C03_conformance_partial: the profile characterisation is a premise that the check evaluates on every "
+                "input).  The ORACLE on the real ShExC text is the EXTRACTED Coq semantics (valid_typingb), judging "
+                "every (instance, shape) pair; the real output is corresponded with the model's on both mode settings.",
+        "design": "DESIGN.md sections 0a, 7 (C03), 11",
+        "note": "Outside strict_domb three root causes break the guarantee (findings C03-F1..F3, refuted lemmas).  "
+                "Disjunctions, target-class mode, instance cap, custom shapes namespace are outside the domain.  "
+                "Trusted base as C01 + the ShExC canonicaliser that feeds the extracted validator.",
+        "technique": "Coq theorems about the pipeline model; ShEx semantics written as a decidable Spec and extracted to "
+                     "OCaml as the oracle on real output; differential correspondence on the full canonical structure",
+    },
     "C04": {
         "text": "Machine-checked proof that the shexing stage of the model -- in which every unguarded dereference, "
                 "index, key lookup and raise of the Python code is an explicit error outcome -- returns a result for "
@@ -74,6 +92,46 @@ CLAIMED = {
                 "(a subset of the grammar, keywords case-insensitive).",
         "technique": "Coq: state-machine lexer and parser automaton compositional over ++, per-line token lemmas, closure "
                      "invariant of the cleaning loop; byte-exact text correspondence; extracted-Spec oracle on real output",
+    },
+    "C07": {
+        "text": "Machine-checked proofs (14 theorems, closed under the global context) about an executable Gallina model "
+                "of the streaming Turtle reader: the subject/predicate/object state machine persisted across lines "
+                "yields exactly the triples of the statement groups for ANY cut of the token sequence into lines "
+                "(C07_T1, unbounded); the tokenizer returns exactly the tokens of a cleaned dialect line and never "
+                "raises or hangs (C07_T2); prefix/base expansion and literal typing give the spec's node, IRI, label or "
+                "datatype (C07_T4); cleaning removes exactly the comment on the proved line shapes (C07_T3_*); "
+                "end to end, reading the rendered TEXT of any document and layout of C07_partial_dom yields its "
+                "semantics (C07_partial); the tested out-of-dialect escapes raise (C07_reject).  ~35 reader constants "
+                "are regenerated from the source.  Tied to /repo by correspondence with the real reader on every "
+                "generated document (all 3^gaps layouts / 2^gaps break placements of small documents), with the "
+                "abstract triples as oracle and rdflib's Turtle parser validating the generator.",
+        "design": "DESIGN.md sections 0a, 7 (C07), 11",
+        "note": "The full property is false on the current reader: 17 known findings (F1-F13 expansion / typing / comment "
+                "scan, R1-R4 missing rejections), each with a refuted lemma and a pinned reproducer; C07_dom excludes "
+                "exactly those.  Lexical forms are not compared; untyped numerics other than [+-]digits[.digits] give the "
+                "explicit outcome 'unmodelled'.  Open: T3 for a line holding both a string literal and a comment.",
+        "technique": "executable Gallina model of the reader; induction over token streams and line cuts; differential "
+                     "correspondence bounded-exhaustive over layouts",
+    },
+    "C08": {
+        "text": "Machine-checked proofs (16 theorems, closed under the global context) about an executable model of the "
+                "plumbing that turns a source into the two triple streams of the two passes, with the format x "
+                "compression x source dispatch, line-reader chain and zip guard generated from the AST: for "
+                "line-compositional readers ANY partition of the lines into files / zip members / archives and any "
+                "documented compression gives the stream of the single raw string (C08_partition_invisible*; the reader "
+                "hypotheses are discharged for TSV), both passes of line channels see the same list "
+                "(C08_both_passes_same), rdflib's per-pass permutation and blank-node renaming are invisible when no "
+                "blank node is an instance or class (C08_renamings_invisible_partial, composed with C09), every "
+                "accepted combination reaches the expected yielder (C08_dispatch_total), and the TSV channel reads the "
+                "NT semantics (C08_tsv_reads_nt_semantics).  Tied to /repo by a metamorphic oracle over 34 channels per "
+                "graph, stream correspondence with the real reader plugged in, exhaustive dispatch and line-reader "
+                "correspondence.",
+        "design": "DESIGN.md sections 0a, 7 (C08), 11",
+        "note": "Hypotheses: the N-Triples reader's line-compositionality is C06's; codecs are identities (monitored); "
+                "rdflib delivers a permutation up to injective renaming (monitored).  Findings C08-F1..F5.  TURTLE_ITER "
+                "is corresponded but has no partition theorem (prefix state).",
+        "technique": "executable Gallina model with table-driven dispatch from Consts.v, readers and rdflib as Section "
+                     "variables / oracles; metamorphic oracle + stream and dispatch correspondence",
     },
     "C09": {
         "text": "Machine-checked proofs for ALL graphs: the declarative counts occ/class_count are invariant under "
@@ -164,6 +222,26 @@ CLAIMED = {
                 "subjects of incoming links get no shape references by design).",
         "technique": "Coq proof (filtering commutes with the stable sort; direct/inverse code paths related by a swap) + "
                      "differential correspondence + metamorphic oracle",
+    },
+    "C15": {
+        "text": "Machine-checked proofs (7 theorems, closed under the global context) about an executable model of the "
+                "endpoint path -- result reader, token tuning, per-node cache with its local graph, depth-1 traversal, "
+                "class/selector queries with LIMIT, the tracker's early stop -- with the endpoint's answer order and "
+                "the set-to-list order as oracle arguments: for all graphs of C15_dom, all modes and both cache settings "
+                "the triples delivered to each pass are, as multisets, the neighbourhoods of the targets "
+                "(C15_triples), the cache never changes what is delivered (C15_cache_same_result), the cached query log "
+                "is a subsequence of the uncached one with no node fetched twice (C15_cache_log_partial), and the "
+                "delivered triples are the restriction of G the local feature pass considers (C15_equals_local_partial; "
+                "equality of the shapes then rests on C09's permutation invariance).  Tied to /repo by exact "
+                "query-sequence and delivered-triple correspondence against an in-process rdflib-backed endpoint and a "
+                "metamorphic oracle endpoint vs local extraction.",
+        "design": "DESIGN.md sections 0a, 7 (C15), 11",
+        "note": "Partial: (c) not for capped target_classes; shapes equality composes with C09 informally.  Six findings "
+                "C15-F1..F6 (F2 inside the property's domain: with inverse paths a statement linking two targets is "
+                "delivered and counted twice).  The HTTP client is replaced by monkey-patching "
+                "shexer.io.sparql.query._query_endpoint_json_result; rdflib evaluates the query text (trusted).",
+        "technique": "executable Gallina model with oracle arguments; cache invariant by induction over requests; "
+                     "differential correspondence on exact query/triple sequences; metamorphic oracle",
     },
     "C16": {
         "text": "Machine-checked proofs (Coq 8.16.1, closed) that the tracker model with a cap lists per class exactly "
